@@ -222,6 +222,10 @@ def tasks(tier):
   # the power iteration starts from a vector that is zero on the padding rows and returns its Rayleigh quotient (C01)
   from contracts import c01
   ts.append(Task("power_iteration ignores the padding of a statistic", c01.mk_pi_result(True)))
+  # the root exponent of a parameter's statistics is its own, whatever the companion parameters are (shared with C02)
+  from contracts import c02
+  for ra, rb in ((1, 2), (2, 1), (2, 3)):
+    ts.append(Task(f"root exponent does not depend on the companion parameter[ranks {ra},{rb}]", c02.mk_exponent_companion(ra, rb)))
   # the preconditioned blocks are merged back into their OWN boxes (two blocked axes with different block counts incl.)
   from contracts import c06
   for blocks in ((2, 3), (3, 2), (2, 1, 3)):
